@@ -333,7 +333,7 @@ def run_scenario(sc, base, fast=True, mode='each', real_passes=None, on_test=Non
 
                 tm.run_pass = run_pass
                 try:
-                    cv.reduce(pg, False)
+                    cv.reduce(pg, bool(sc.get('skip_initial')))      # --skip-initial-passes: the 'first' category is not run
                 except BaseException as e:
                     o.exc = e
                     code = EXC_CODES.get(type(e).__name__, 50)
